@@ -52,7 +52,10 @@ def run(ctx):
     targets += [['Insertion', R, '3', '2'], ['Deletion', R, '2', '21']]          # fully expanded, multi-block deletion
     tmism = common.trace_tie(ctx, targets)
     found = None
-    runs = [('corrcircuit', ['-seed', ctx.seed, '-n', ctx.pick(40, 1500), '-depth', 3, '-batch', 2])]
+    runs = [('corrcircuit', ['-seed', ctx.seed, '-n', ctx.pick(40, 1500), '-depth', 3, '-batch', 2]),
+            # batch sizes at which the hashed message ends within four bytes of a Keccak rate boundary:
+            # 64+4b = 132 (mod 136) for deletion at b = 17, 68+32b = 132 for insertion at b = 2 (above)
+            ('corrcircuit', ['-seed', ctx.seed + 3, '-n', ctx.pick(16, 120), '-depth', 5, '-batch', 17])]
     if ctx.thorough:
         runs += [('corrcircuit', ['-seed', ctx.seed + 1, '-n', 400, '-depth', 2, '-batch', 5]), ('corrcircuit', ['-seed', ctx.seed + 2, '-n', 200, '-depth', 1, '-batch', 1])]
     if tmism:
